@@ -2,7 +2,8 @@ from props.common import run_bounded, verify_keys, add_obs
 from pv import obs_classes as C
 
 KEYS = ['parso.python.tree._StringComparisonMixin.__eq__', 'parso.python.tree._StringComparisonMixin.__hash__',
-        'parso.tree.Leaf.start_pos.setter', 'parso.tree.Leaf.start_pos']
+        'parso.tree.Leaf.start_pos.setter', 'parso.tree.Leaf.start_pos', 'parso.tree.Leaf.get_code',
+        'parso.tree.BaseNode.get_code', 'parso.tree.BaseNode._get_code_for_children']
 
 
 def run(report):
